@@ -7,13 +7,20 @@ From PV Require Import Base.PyData Base.Expr C11.Model C11.NumModel C11.JdModel.
 Import ListNotations.
 Local Open Scope nat_scope.
 
-Inductive jop := JCreate (inds pn : list id) | JSplit (inds : list id).
+Inductive jop := JCreate (inds pn : list id) | JCreateDefault (pn : list id) | JSplit (inds : list id).
 Record jcase := mkJCase {
   j_r : scoll;                       (* model.random_variables before (None = 0, Some p = parameter symbol) *)
   j_p : list (id * Q);               (* model.parameters.inits before *)
   j_op : jop;
   j_out : option (scoll * list (id * Q));   (* result, None = ValueError *)
-  j_sqrt : list (Q * Q)              (* np.sqrt as computed *)
+  j_sqrt : list (Q * Q);             (* np.sqrt as computed *)
+  j_fixed : list id;                 (* names of the fixed parameters *)
+  (* individual estimates: (parent1, parent2) -> correlation matrix of the two etas' individual estimates *)
+  j_ie : list (id * id * list (list Q));
+  j_psd : list (list (list Q) * bool);           (* is_positive_semidefinite as computed *)
+  j_rep : list (list (list Q) * list (list Q));  (* nearest_positive_semidefinite as computed *)
+  j_small : Q;                                    (* the float 0.0001 *)
+  j_internal : bool                               (* the call ended in an IndexError (internal error) *)
 }.
 
 Fixpoint jall2 {A B} (f : A -> B -> bool) (a : list A) (b : list B) : bool :=
@@ -34,14 +41,28 @@ Definition jtag (b : bool) (t : nat) : list nat := if b then [] else [t].
 Definition osym_eqb (a b : option sym) : bool :=
   match a, b with Some x, Some y => sym_eqb x y | None, None => true | _, _ => false end.
 
+Definition jmat_eqb (A B : list (list Q)) : bool := jall2 (jall2 Qeq_bool) A B.
+Fixpoint jtlookup {A} (t : list (list (list Q) * A)) (M : list (list Q)) : option A :=
+  match t with [] => None | (K, v) :: tl => if jmat_eqb K M then Some v else jtlookup tl M end.
+Fixpoint jielookup (t : list (id * id * list (list Q))) (a b : id) : option (list (list Q)) :=
+  match t with
+  | [] => None
+  | (x, y, M) :: tl => if Pos.eqb x a && Pos.eqb y b then Some M else jielookup tl a b
+  end.
+
 Definition jverdict (c : jcase) : list nat :=
   let r := j_r c in let p := j_p c in
-  match j_op c with
-  | JCreate inds pn =>
-      let m := create_joint_distribution Q 0%Q Qmult (jqlookup (j_sqrt c)) (fun x => x) (1 # 10)%Q
-                 (fun _ _ => None) inds pn p r in
+  let sq := jqlookup (j_sqrt c) in
+  let is_psd := fun M => match jtlookup (j_psd c) M with Some b => b | None => true end in
+  let repair := fun M => match jtlookup (j_rep c) M with Some B => B | None => M end in
+  let ie := fun a b => option_map (ie_cov_init Q 0%Q Qmult sq (fun x => x) Qplus (fun x => Qeq_bool x 0) (j_small c)
+                                               is_psd repair p a b) (jielookup (j_ie c) a b) in
+  let fixed := fun x => memp x (j_fixed c) in
+  let create_case := fun inds pn =>
+      let m := create_joint_distribution Q 0%Q Qmult sq (fun x => x) (1 # 10)%Q ie inds pn p r in
       match m, j_out c with
-      | Err _, None => []
+      | Err IndexError, None => if j_internal c then [60; 252] else [51]
+      | Err _, None => if j_internal c then [51] else []
       | Ok (mr, mp), Some (ir, ip) =>
           jtag (jall2 sdist_eqb mr ir) 51 ++
           (* parameters: the implementation may drop unused ones afterwards; every parameter it keeps is the
@@ -66,12 +87,17 @@ Definition jverdict (c : jcase) : list nat :=
           (* the old parameters keep their values *)
           jtag (forallb (fun kv => match alookup p (fst kv) with Some v => Qeq_bool v (snd kv) | None => true end) ip) 58
       | _, _ => [51]
-      end
+      end in
+  match j_op c with
+  | JCreate inds pn => create_case inds pn
+  | JCreateDefault pn =>
+      (* rvs=None: the IIV etas without a fixed parameter; this selection is in collection order *)
+      create_case (default_rvs fixed r) pn ++
+      jtag (list_eqb Pos.eqb (default_rvs fixed r) (filter (fun n => memp n (default_rvs fixed r)) (names r))) 59
   | JSplit inds =>
-      match j_out c with
-      | None => [56]
-      | Some (ir, ip) =>
-          let '(mr, mp) := split_joint_distribution Q inds p r in
+      match split_joint_distribution_checked Q fixed inds p r, j_out c with
+      | Err _, None => []
+      | Ok (mr, mp), Some (ir, ip) =>
           jtag (jall2 sdist_eqb mr ir) 56 ++
           jtag (list_eqb Pos.eqb (map fst mp) (map fst ip) && jall2 (fun a b => Qeq_bool (snd a) (snd b)) mp ip) 56 ++
           jtag (setp_eqb (names r) (names ir)) 54 ++
@@ -81,5 +107,6 @@ Definition jverdict (c : jcase) : list nat :=
                                   | Some (Some q) => negb (memp q (map fst p)) || memp q (map fst ip)
                                   | _ => true end) (names r)) 57 ++
           jtag (forallb (fun kv => memp (fst kv) (map fst ip) || negb (memp (fst kv) (syms ir))) p) 57
+      | _, _ => [56]
       end
   end.
